@@ -5,10 +5,19 @@ C06 — Blobs and image payloads round-trip byte-exactly (write side proved; rea
 the logical stream = old stream with header(16 + len padded to 4) ++ data written at the old
 cursor and aligned, and returns the descriptor (old physical position, len) — for every length
 and every position relative to page boundaries.  `blobRead_exact_or_error`-style facts and the
-file-level round trip are exercised by the writer/reader suites; the composed theorem is future work.
+file-level round trip are exercised by the writer/reader suites.
+
+The composed theorems live in `E57/Proofs/BlobRoundTrip.lean` (namespace `E57.BlobRT`):
+`blob_roundtrip` (write anywhere, read back from every healthy reader over every complete file that
+still contains the window), `run_window_stable` / `blob_roundtrip_file` / `two_blobs` (later writes
+outside the window change nothing; each descriptor leads to its own data), `blobRead_exact_or_error`
+and `blobRead_returns_stream` (never fewer, more or other bytes, for ANY descriptor on ANY content),
+`blob_roundtrip_unbounded_statement_false` (the 2^64 size bound is necessary),
+`blobRead_overlong_accepted` (observation: the reader's length check is lax by 32 bytes).
 -/
 import E57.Proofs.WriterProps
 import E57.Proofs.History
+import E57.Proofs.BlobRoundTrip
 namespace E57.C06
 open E57
 
